@@ -40,6 +40,9 @@ func exploredConfigs(tier string) []itCfg {
 	return []itCfg{{1 * s, 1 * s}, {2 * s, 3 * s}}
 }
 
+// enumConfigs: the enumerated parts cost about a second, so both tiers run all nine configurations.
+func enumConfigs() []itCfg { return configs("thorough") }
+
 func scenarios(tier string) []*vx.Scenario {
 	bound := 1
 	if tier == "thorough" {
@@ -47,23 +50,35 @@ func scenarios(tier string) []*vx.Scenario {
 	}
 	var s []*vx.Scenario
 	for _, c := range configs(tier) {
-		for _, lc := range liveCases(c) {
-			s = append(s, liveScenario(lc, bound))
-		}
+		s = append(s, liveScenarios(c, tier)...)
 	}
 	for _, c := range exploredConfigs(tier) {
 		for _, dc := range exploredDeadCases(c) {
-			s = append(s, deadScenario(dc, bound))
+			s = append(s, deadScenario(dc, bound+1)) // short executions: one more deviation is affordable
 		}
 	}
 	if hasArg("replay") {
-		// the enumerated cases are addressable by name so that `-replay <file>` re-executes them alone
-		for _, c := range configs("thorough") {
+		// every scenario of either tier and every enumerated case is addressable by name, so that
+		// `-replay <file>` can re-execute it alone
+		seen := map[string]bool{}
+		for _, sc := range s {
+			seen[sc.Name] = true
+		}
+		var more []*vx.Scenario
+		for _, c := range enumConfigs() {
+			more = append(more, liveScenarios(c, "quick")...)
+			more = append(more, liveScenarios(c, "thorough")...)
 			for _, dc := range deadCases(c, 12) {
-				s = append(s, deadScenario(dc, 0))
+				more = append(more, deadScenario(dc, 0))
 			}
 			for _, nc := range append(narrowCases(c), dupCases(c)...) {
 				sc, _ := narrowScenario(nc)
+				more = append(more, sc)
+			}
+		}
+		for _, sc := range more {
+			if !seen[sc.Name] {
+				seen[sc.Name] = true
 				s = append(s, sc)
 			}
 		}
@@ -104,13 +119,22 @@ func runCase(sc *vx.Scenario, tier string, detail any, r *vx.Report) (res vx.Res
 
 func enumerated(tier string, r *vx.Report) {
 	outcomes := map[string]bool{}
+	var samples []any
 	// ---- part 1: dead peer, every fault position
 	nDead, perCfg := 0, map[string]any{}
-	for _, c := range configs(tier) {
-		nreq, err := requestsIn3Periods(c)
-		if err != nil || nreq < 4 {
+	for _, c := range enumConfigs() {
+		nreq, killed, err := requestsIn3Periods(c)
+		r.Evaluations++
+		r.TracesValidated++
+		if killed[0] != "" {
+			// a healthy connection did not survive 3.5 periods: a verdict, not a rig problem
+			r.Violate(killed[0], "[dead/"+c.String()+"/fault-free-probe] "+killed[1], map[string]any{"scenario": liveCase{C: c}.name(), "picks": []int{}, "tier": "thorough"})
+		} else if err != nil || nreq < 4 {
 			r.HarnessErrs = append(r.HarnessErrs, fmt.Sprintf("dead/%v: fault-free probe run: %d requests, %v", c, nreq, err))
 			continue
+		}
+		if nreq < 8 {
+			nreq = 8 // (only after a kill) positions that are never reached are judged as such
 		}
 		cases := deadCases(c, nreq)
 		detected := 0
@@ -126,8 +150,8 @@ func enumerated(tier string, r *vx.Report) {
 			if len(res.Violations) == 0 {
 				detected++
 			}
-			if dc.Flavour == "responses@req" && dc.N == 4 && len(r.Samples) < 5 {
-				r.Sample(map[string]any{"part": "dead-peer", "case": sc.Name, "observed": res.Outcome})
+			if dc.Flavour == "responses@req" && dc.N == 4 && len(samples) < 1 || dc.Flavour == "both@t" && dc.Traffic == "client" && len(samples) < 2 {
+				samples = append(samples, map[string]any{"part": "dead-peer (one execution, default schedule)", "case": sc.Name, "observed": res.Outcome})
 			}
 		}
 		perCfg[c.String()] = map[string]any{"requests_in_3_periods": nreq, "fault_positions": len(cases), "detected_in_bound_on_both_sides": detected}
@@ -137,7 +161,7 @@ func enumerated(tier string, r *vx.Report) {
 
 	// ---- part 3: narrow companion
 	nNarrow := 0
-	for _, c := range configs(tier) {
+	for _, c := range enumConfigs() {
 		for _, nc := range narrowCases(c) {
 			sc, _ := narrowScenario(nc)
 			nc.Cfg = c.String()
@@ -147,8 +171,8 @@ func enumerated(tier string, r *vx.Report) {
 			}
 			nNarrow++
 			outcomes[sc.Name+"|"+res.Outcome] = true
-			if nc.K == 2 && nc.DName == "T-1ms" && nc.After == "keeps-talking" && len(r.Samples) < 6 {
-				r.Sample(map[string]any{"part": "narrow", "case": sc.Name, "observed": res.Outcome})
+			if nc.K == 2 && nc.DName == "T-1ms" && nc.After == "keeps-talking" && len(samples) < 3 {
+				samples = append(samples, map[string]any{"part": "narrow (one execution, default schedule)", "case": sc.Name, "observed": res.Outcome})
 			}
 		}
 	}
@@ -158,7 +182,7 @@ func enumerated(tier string, r *vx.Report) {
 	var worst time.Duration
 	worstCase, nDup, nLate := "", 0, 0
 	dupObs := map[string]any{}
-	for _, c := range configs(tier) {
+	for _, c := range enumConfigs() {
 		var w time.Duration
 		for _, nc := range dupCases(c) {
 			sc, obs := narrowScenario(nc)
@@ -193,6 +217,13 @@ func enumerated(tier string, r *vx.Report) {
 		"per_config":                   dupObs,
 	}
 
+	if len(r.Samples) > 2 {
+		r.Samples = r.Samples[:2] // keep room for written-out enumerated cases
+	}
+	for _, s := range samples {
+		r.Sample(s)
+	}
+	r.Sample(map[string]any{"part": "duplicated pong (observation only)", "case": worstCase, "observed": fmt.Sprintf("death noticed %v later than pingInterval+pingTimeout after the last pong", worst)})
 	r.DistinctNontriv += nDead + nNarrow + nDup
 	r.States += nDead + nNarrow + nDup
 	r.DistinctOutcomes += len(outcomes)
@@ -206,7 +237,7 @@ func main() {
 		Property: "C14",
 		Level:    "model_checking",
 		Rule: "real eio client <-> real eio server over the in-process polling link, virtual time (exact latencies, early-timer deviations off). " +
-			"Dead peer: for every (pingInterval, pingTimeout) the link is black-holed before every request index of a 3-heartbeat run (both directions / responses only / after the request was served) and at every quarter-interval instant (both / responses only), one execution each at the default schedule, " +
+			"Dead peer: for every (pingInterval, pingTimeout) the link is black-holed before every request index of a 3-heartbeat run (both directions / responses only / after the request was served) and at every quarter-interval instant (both / responses only; also with an application sender on either side whose requests are in flight at the instant), one execution each at the default schedule, all nine configurations in both tiers, " +
 			"plus a subset (first pong POST, the poll after it, the tie t=I, a parked long poll) explored with thread-choice deviations from the fault on. " +
 			"Live peer: idle for 5*(I+T), a sender on either side at phase 0, I/4, I/2, 3I/4 of the ping schedule, and the same with a latency of T/8 per leg, explored with thread-choice deviations over the whole run. " +
 			"Narrow: the server socket against a hand-played polling client that withholds pong k=1..3 after answering the earlier ones with delay 0, T/2, T-1ms. " +
